@@ -152,6 +152,10 @@ func other(tag int) interface{} {
 		return int16(3)
 	case 21:
 		return 'x' // rune = int32?  no: rune IS int32 -> not "other"; keep distinct below
+	case 22: // what YAML decoders produce: not a map[string]interface{}
+		return map[interface{}]interface{}{"name": "bob", "n": 1, "a": map[interface{}]interface{}{"b": 1}}
+	case 23:
+		return map[string]string{"name": "bob", "n": "1"}
 	}
 	return struct{}{}
 }
@@ -330,6 +334,12 @@ func snapshot(v interface{}) interface{} {
 		return c
 	case map[interface{}]interface{}:
 		c := make(map[interface{}]interface{}, len(t))
+		for k, e := range t {
+			c[k] = snapshot(e)
+		}
+		return c
+	case map[string]string:
+		c := make(map[string]string, len(t))
 		for k, e := range t {
 			c[k] = e
 		}
